@@ -337,7 +337,7 @@ func (p *simtest) Run(c *verifsim.Chooser, st *Stats, render bool) *Outcome {
 			return ""
 		}
 	}
-	currentDesc.Store("simtest " + name)
+	setDesc("simtest " + name)
 	s.Run()
 	o.Digest.U64(s.D.H)
 	o.Ticks = int64(s.Steps)
